@@ -2368,6 +2368,97 @@ Proof.
   split; [vm_compute; reflexivity|]. split; [vm_compute; discriminate | vm_compute; reflexivity].
 Qed.
 
+(* ---- the two placements of U and FILL carry the same numbers *)
+Definition nz (z : Z) : bool := negb (z =? 0)%Z.
+
+Lemma slot_numbers_app : forall sl a b, slot_numbers sl (a ++ b) = slot_numbers sl a ++ slot_numbers sl b.
+Proof. intros. unfold slot_numbers. apply flat_map_app. Qed.
+
+Lemma slot_numbers_map_other : forall A sl sl' (f : A -> src * kind * Z) (l : list A),
+  slot_eqb sl' sl = false ->
+  slot_numbers sl (map (fun x => let '(s, k, n) := f x in (s, sl', k, n)) l) = [].
+Proof.
+  intros A sl sl' f l H. induction l as [|x l IH]; [reflexivity|]. simpl. destruct (f x) as [[s0 k] n]. rewrite H. exact IH.
+Qed.
+
+Lemma slot_numbers_cell : forall g c,
+  slot_numbers SlU (cell_written g c) = (if (u_entry g c =? 0)%Z then [] else [u_entry g c]) /\
+  slot_numbers SlFill (cell_written g c) =
+    match c_fill (cellf g c) with Some f => [num g KUniv f] | None => [] end.
+Proof.
+  intros g c. unfold cell_written, u_entry. rewrite !slot_numbers_app.
+  assert (G : forall sl, (sl = SlU \/ sl = SlFill) ->
+              slot_numbers sl (map (fun p : kind * Z => (SrcCell c, SlGeom, fst p, snd p))
+                (match c_geom (cellf g c) with Some h => hs_written g h | None => [] end)) = []).
+  { intros sl H. induction (match c_geom (cellf g c) with Some h => hs_written g h | None => [] end) as [|x l IH];
+      [reflexivity|]. destruct H; subst; simpl; exact IH. }
+  rewrite (G SlU (or_introl eq_refl)), (G SlFill (or_intror eq_refl)). split.
+  - destruct (c_mat (cellf g c)); destruct (c_univ (cellf g c)) as [u|]; destruct (c_fill (cellf g c)) as [f|];
+      simpl; try (destruct (num g KUniv u =? 0)%Z; simpl);
+      try (destruct (c_fparens (cellf g c)); destruct (c_ftr (cellf g c)); reflexivity); reflexivity.
+  - destruct (c_mat (cellf g c)); destruct (c_univ (cellf g c)) as [u|]; destruct (c_fill (cellf g c)) as [f|];
+      simpl; try (destruct (num g KUniv u =? 0)%Z; simpl);
+      try (destruct (c_fparens (cellf g c)); destruct (c_ftr (cellf g c)); reflexivity); reflexivity.
+Qed.
+
+Lemma slot_numbers_cells : forall g cs,
+  slot_numbers SlU (flat_map (cell_written g) cs) = filter nz (map (u_entry g) cs) /\
+  slot_numbers SlFill (flat_map (cell_written g) cs) =
+    flat_map (fun c => match c_fill (cellf g c) with Some f => [num g KUniv f] | None => [] end) cs.
+Proof.
+  intros g cs. induction cs as [|c cs [IH1 IH2]]; [split; reflexivity|]. simpl. rewrite !slot_numbers_app.
+  destruct (slot_numbers_cell g c) as [E1 E2]. rewrite E1, E2, IH1, IH2. split; [|reflexivity].
+  unfold nz. destruct (u_entry g c =? 0)%Z; reflexivity.
+Qed.
+
+Lemma slot_numbers_rest : forall g sl, (sl = SlU \/ sl = SlFill) ->
+  slot_numbers sl (flat_map (surf_written g) (coll g KSurf)) = [] /\
+  slot_numbers sl (flat_map (mt_written g) (flat_map (ditem_mts g) (dins g))) = [].
+Proof.
+  intros g sl H. split.
+  - induction (coll g KSurf) as [|x l IH]; [reflexivity|]. simpl. rewrite slot_numbers_app, IH. unfold surf_written.
+    destruct (s_tr (surff g x)); [destruct H; subst; reflexivity|]. destruct (s_per (surff g x)); destruct H; subst; reflexivity.
+  - induction (flat_map (ditem_mts g) (dins g)) as [|x l IH]; [reflexivity|]. simpl. rewrite slot_numbers_app, IH.
+    unfold mt_written. destruct (t_parent (mtf g x)); destruct H; subst; reflexivity.
+Qed.
+
+(* cell-block placement (u=n on the cell cards, nothing for universe 0) and data-block placement (one
+   U card, a jump for universe 0) write the same numbers for the same cells, in the same order;
+   both re-read the number of the universe object *)
+Theorem placements_agree : forall g,
+  slot_numbers SlU (written_refs g) = filter nz (u_card g) /\
+  slot_numbers SlFill (written_refs g) =
+    flat_map (fun c => match c_fill (cellf g c) with Some f => [num g KUniv f] | None => [] end) (coll g KCell) /\
+  ((forall c f, c_fill (cellf g c) = Some f -> num g KUniv f <> 0%Z) ->
+   slot_numbers SlFill (written_refs g) = filter nz (fill_card g)).
+Proof.
+  intro g. unfold written_refs. rewrite !slot_numbers_app.
+  destruct (slot_numbers_cells g (coll g KCell)) as [E1 E2].
+  destruct (slot_numbers_rest g SlU (or_introl eq_refl)) as [A1 A2].
+  destruct (slot_numbers_rest g SlFill (or_intror eq_refl)) as [B1 B2].
+  rewrite E1, E2, A1, A2, B1, B2, !app_nil_r. split; [reflexivity|]. split; [reflexivity|].
+  intro H. clear E1 E2. unfold fill_card. induction (coll g KCell) as [|c cs IH]; [reflexivity|]. simpl. rewrite IH.
+  unfold fill_entry, nz. destruct (c_fill (cellf g c)) as [f|] eqn:Ef; [|reflexivity].
+  destruct (num g KUniv f =? 0)%Z eqn:Ez; [apply Z.eqb_eq in Ez; exfalso; apply (H c f Ef Ez) | reflexivity].
+Qed.
+
+Theorem cards_renumber : forall g rho,
+  u_card (renumber g rho) =
+    map (fun c => match c_univ (cellf g c) with Some u => rho KUniv u | None => 0%Z end) (coll g KCell) /\
+  fill_card (renumber g rho) =
+    map (fun c => match c_fill (cellf g c) with Some f => rho KUniv f | None => 0%Z end) (coll g KCell).
+Proof. intros g rho. split; reflexivity. Qed.
+
+Theorem cards_after_sequence : forall ops g, all_safe renum_safe g ops = true -> NumInj g -> Linked g ->
+  u_card (run g ops) =
+    map (fun c => match c_univ (cellf g c) with Some u => num (run g ops) KUniv u | None => 0%Z end) (coll g KCell) /\
+  fill_card (run g ops) =
+    map (fun c => match c_fill (cellf g c) with Some f => num (run g ops) KUniv f | None => 0%Z end) (coll g KCell).
+Proof.
+  intros ops g S N L. destruct (run_renum ops g S N L) as (_ & _ & (B1 & _ & _ & _ & B5 & _) & _).
+  unfold u_card, fill_card, u_entry, fill_entry. rewrite B1. split; apply map_ext; intro c; rewrite B5; reflexivity.
+Qed.
+
 (* ================================================================ a refused geometry / divider changes nothing *)
 Lemma set_geom_conflict_atomic : forall g c e g', set_geom g c e = (g', RErr NumberConflict) -> g' = g.
 Proof.
